@@ -70,7 +70,7 @@ type WSummary struct {
 	Done        int64            `json:"done"`
 	NonTrivial  []uint64         `json:"nontrivial"`
 	Probes      map[string]int   `json:"probes"`
-	Faults      [4]int           `json:"faults"`
+	Faults      [5]int           `json:"faults"`
 	SimNs       int64            `json:"sim_ns"`
 	States      []uint64         `json:"states"`
 	Ops         int64            `json:"ops"`
@@ -711,7 +711,7 @@ func runMain(args []string) int {
 			"api_calls":             total.Ops,
 			"user_function_execs":   total.Execs,
 			"simulated_time_s":      float64(total.SimNs) / 1e9,
-			"faults_fired":          map[string]int{"err": total.Faults[FaultErr], "err+partial": total.Faults[FaultErrPartial], "panic": total.Faults[FaultPanic]},
+			"faults_fired":          map[string]int{"err": total.Faults[FaultErr], "err+partial": total.Faults[FaultErrPartial], "panic": total.Faults[FaultPanic], "callback-panic": total.Faults[FaultCBPanic]},
 			"twin_runs":             total.Twins,
 			"census_probes":         total.CensusOps,
 			"distinct_model_states": len(states),
